@@ -540,6 +540,81 @@ def happy_path(store, nreq, faults=()):
     return render_case(store, ops)
 
 
+ABSTRACT = ["req0", "req0-flushfault", "req0-acklost", "claim0", "claim0-acklost", "settle0", "settle0-flushfault",
+            "retry0", "recover", "trunc", "req1"]
+
+
+def expand_abstract(store, seq):
+    """Exhaustive small universe: a sequence of abstract actions on one system is expanded into concrete
+    operations; pool indices come from the python shadow (no result is taken from it)."""
+    sim = Sim()
+    ops = []
+
+    def emit(o):
+        ops.append(o); sim.apply(o)
+    reg = [(0xb, 0xe, 0x63)]
+    emit(("new", 7, 0xb, 0xc, 0xd, 0xe, 0xf, 0x40, 1, 0x10, 0x11))
+    emit(("new", 8, 0xb, 0xc, 0xd, 0xe, 0xf, 0x40, 1, 0x10, 0x11))
+    emit(("auth", 0, 0x63, reg))
+    last = lambda pool: max([i for i, x in enumerate(pool) if x is not None], default=0)
+    for a in seq:
+        if a.startswith("req0"):
+            emit(("req", "a", 0, {"req0": "n", "req0-flushfault": "f", "req0-acklost": "s"}[a]))
+        elif a == "req1":
+            emit(("req", "a", 1, "n"))
+        elif a.startswith("claim0"):
+            emit(("rec", "a", 0))
+            emit(("claim", "a", last(sim.tokens), 0, 0xf, 0, 5, "s" if a.endswith("acklost") else "n"))
+        elif a.startswith("settle0"):
+            emit(("grant", "a", 0))
+            g = last(sim.grants)
+            emit(("cand", g, 1, [1, 2, 3], 8, 9, "none", 0))
+            emit(("settle", "a", g, max(len(sim.cands) - 1, 0), "f" if a.endswith("flushfault") else "n"))
+        elif a == "retry0":
+            emit(("retry", "a", max(len(sim.cands) - 1, 0)))
+        elif a == "recover":
+            emit(("recover", "a"))
+        elif a == "trunc":
+            emit(("trunc", "a"))
+    emit(("adm", "a", 0))
+    return render_case(store, ops)
+
+
+def exhaustive(store, maxlen):
+    import itertools
+    out = []
+    for n in range(1, maxlen + 1):
+        for seq in itertools.product(ABSTRACT, repeat=n):
+            out.append(expand_abstract(store, seq))
+    return out
+
+
+def impl_only(tag, cases, bins, parts=None):
+    """Runs only the implementation-side oracle (no model) on many cases, in parallel processes."""
+    import concurrent.futures
+    parts = parts or min(vf.NCPU, max(1, len(cases) // 50))
+    chunks = [cases[i::parts] for i in range(parts)]
+
+    def one(i):
+        path = vf.write_cases(f"{tag}-{i}", chunks[i])
+        rc, out = vf.run_bin(bins["c17"], path, timeout=1500)
+        if rc:
+            raise vf.Broken(f"harness c17 exited {rc}: {out[-500:]}")
+        res = [split_impl(l) for l in out.splitlines() if l.startswith("res=")]
+        if len(res) != len(chunks[i]):
+            raise vf.Broken(f"harness c17 printed {len(res)} lines for {len(chunks[i])} cases")
+        return res
+    with concurrent.futures.ThreadPoolExecutor(max_workers=parts) as ex:
+        got = list(ex.map(one, range(parts)))
+    bad, checks = [], 0
+    for i, part in enumerate(got):
+        for j, (_, o, c) in enumerate(part):
+            checks += c
+            if o != "ok":
+                bad.append((chunks[i][j], o))
+    return bad, checks
+
+
 # ----------------------------------------------------------------------------- running both sides
 
 def split_impl(line):
@@ -607,6 +682,21 @@ def run(tier, seed, replay=None):
         r.is_broken("correspondence-run", e)
         return r.finish()
     bad = vf.diff_lines(r, cases, impl, model)
+    # exhaustive small universe on the implementation-side oracle alone (all sequences of abstract actions)
+    sweep_n = sweep_checks = 0
+    if not replay:
+        try:
+            sweep = exhaustive("mem", 2 if tier == "quick" else 4) + exhaustive("fs", 1 if tier == "quick" else 2)
+            sweep_n = len(sweep)
+            sbad, sweep_checks = impl_only("c17sweep", sweep, bins)
+            for c, o in sbad[:5]:
+                sig = "oracle:" + re.sub(r"\[.\]|:.*", "", o.split(":", 1)[1].split(",")[0]) if ":" in o else "oracle"
+                r.violation(sig, f"implementation oracle failed in the exhaustive sweep: {o}", {"case": c, "oracle": o})
+        except vf.Broken as e:
+            r.is_broken("sweep-run", e)
+    r.cov["exhaustive_sweep_cases_impl_oracle"] = sweep_n
+    r.cov["exhaustive_sweep_rule"] = ("all sequences of length <= 2 (quick) / 4 (thorough) over 11 abstract actions "
+                                      f"{ABSTRACT} on the in-memory store, and <= 1 / 2 on the filesystem store, oracle only")
     for i, o in enumerate(oracle):
         if o != "ok":
             sig = "oracle:" + re.sub(r"\[.\]|:.*", "", o.split(":", 1)[1].split(",")[0]) if ":" in o else "oracle"
@@ -667,7 +757,7 @@ def run(tier, seed, replay=None):
     r.cov["result_class_histogram"] = dict(sorted(hist.items()))
     r.cov["fault_histogram"] = faults
     r.cov["store_histogram"] = stores
-    r.cov["oracle_checks_on_impl"] = sum(checks)
+    r.cov["oracle_checks_on_impl"] = sum(checks) + sweep_checks
     r.cov["traces_validated_against_impl"] = len(cases) - len(bad)
     r.cov["samples"] = [c[:400] for c in cases[:3]]
     r.phase("P4_correspondence", cases=len(cases), differing=len(bad))
